@@ -415,7 +415,10 @@ func (f *Frame) execIf(st *State, x *ast.IfStmt) *State {
 		}
 	}
 	c := f.eval(st, x.Cond)
-	c = f.name("c", c)
+	if c.T != "true" && c.T != "false" {
+		// every branch condition gets a name: case splits (splitDischarge) refer to it
+		c.T = f.c.define("c", "Bool", c.T)
+	}
 	s1 := st.fork()
 	s1.assume(c.T)
 	n1 := f.execBlock(s1, x.Body.List)
